@@ -413,15 +413,40 @@ pub fn run_worker(p: &dyn Property, tier: Tier, shard: usize, nshards: usize, sk
             write_stats(out, &stats, seq, false);
             last_flush = Instant::now();
         }
+        // The library's documents are reference cycles and are never freed: a worker that has grown past the limit
+        // hands its statistics in and asks to be started again behind the case it has just finished.
+        if i % 128 == 127 && i + 1 < total_gen && rss_mb() > rss_limit_mb() {
+            write_stats_with(out, &stats, seq, false, true);
+            return RECYCLE_EXIT;
+        }
     }
     write_stats(out, &stats, seq, true);
     0
 }
 
+pub const RECYCLE_EXIT: i32 = 75;
+
+fn rss_limit_mb() -> u64 {
+    std::env::var("VERIF_WORKER_RSS_MB").ok().and_then(|v| v.parse().ok()).unwrap_or(900)
+}
+
+fn rss_mb() -> u64 {
+    std::fs::read_to_string("/proc/self/statm")
+        .ok()
+        .and_then(|s| s.split_whitespace().nth(1).and_then(|v| v.parse::<u64>().ok()))
+        .map(|pages| pages * 4096 / (1024 * 1024))
+        .unwrap_or(0)
+}
+
 fn write_stats(out: &Path, stats: &ShardStats, seq: u64, done: bool) {
+    write_stats_with(out, stats, seq, done, false)
+}
+
+fn write_stats_with(out: &Path, stats: &ShardStats, seq: u64, done: bool, recycle: bool) {
     let mut j = stats.to_json();
     j["seq"] = json!(seq);
     j["done"] = json!(done);
+    j["recycle"] = json!(recycle);
     let tmp = out.with_extension("tmp");
     if let Ok(mut f) = std::fs::File::create(&tmp) {
         let _ = f.write_all(serde_json::to_string(&j).unwrap().as_bytes());
@@ -454,6 +479,7 @@ pub fn run_parent(p: &dyn Property, tier: Tier) -> RunResult {
     let mut merged = ShardStats::default();
     let mut infra_errors: Vec<String> = vec![];
     let mut abort_events: Vec<Json> = vec![];
+    let mut recycles: u64 = 0;
 
     // ---- witnesses of open known findings are replayed first (each in a child process)
     let mut known_lines: Vec<String> = vec![];
@@ -554,6 +580,13 @@ pub fn run_parent(p: &dyn Property, tier: Tier) -> RunResult {
                     }
                     if st.success() && done {
                         partials.entry(r.shard).or_default().push(stats.unwrap());
+                    } else if st.code() == Some(RECYCLE_EXIT) && stats.as_ref().map(|s| s["recycle"] == json!(true)).unwrap_or(false) {
+                        // the worker asked for a fresh process (memory): go on behind its last case; not an abort
+                        let s = stats.unwrap();
+                        let next = s["seq"].as_u64().unwrap_or(r.skip);
+                        partials.entry(r.shard).or_default().push(s);
+                        recycles += 1;
+                        pending.push((r.shard, next, r.respawns + 1000));
                     } else {
                         // worker died: which case?
                         use std::os::unix::process::ExitStatusExt;
@@ -591,7 +624,7 @@ pub fn run_parent(p: &dyn Property, tier: Tier) -> RunResult {
                                 // every abort is already a recorded event (a verdict for C03/C06/C12/C13); a shard that
                                 // keeps dying only burns its CPU budget again and again, so it is given up after a few
                                 let limit = if p.abort_is_verdict() { 5 } else { 40 };
-                                if r.respawns < limit {
+                                if r.respawns % 1000 < limit {
                                     pending.push((r.shard, seq, r.respawns + 1));
                                 } else if !p.abort_is_verdict() {
                                     infra_errors.push(format!("shard {} died more than {} times", r.shard, limit));
@@ -727,6 +760,7 @@ pub fn run_parent(p: &dyn Property, tier: Tier) -> RunResult {
     coverage.insert("known_finding_hits".into(), json!(merged.known_hits));
     coverage.insert("shrink_steps".into(), json!(merged.shrink_steps));
     coverage.insert("worker_aborts".into(), json!(abort_events.len()));
+    coverage.insert("worker_recycles_for_memory".into(), json!(recycles));
     coverage.insert("shards".into(), json!(nshards));
     coverage.insert("infrastructure_errors".into(), json!(infra_errors));
     coverage.insert("floor_failures".into(), json!(floor_fail));
